@@ -501,6 +501,18 @@ def r13_6(ctx):
         elif ps.startswith("Array(") or ps.startswith("Object("):
             ok = ".all(" in bs and "is_constant(" in bs
             why = "conjunction over the elements"
+            # ... over *all* of them: nothing may be filtered out before the conjunction, and what is not a plain element / property is dynamic
+            skipping = [x["method"] for x in walk(a["body"]) if x.get("k") == "MethodCall" and x["method"] in
+                        ("filter", "filter_map", "flat_map", "flatten", "skip", "skip_while", "take", "take_while", "step_by", "map_while")]
+            if skipping:
+                ok = False
+                why = "elements are dropped by %s() before the conjunction: a spread / hole among constants is then not seen" % skipping[0]
+            else:
+                alls = [x for x in walk(a["body"]) if x.get("k") == "MethodCall" and x["method"] == "all" and x["args"] and x["args"][0].get("k") == "Closure"]
+                from .c02 import _leaves
+                if alls and not any(expr_str(l) == "False" for l in _leaves(alls[0]["args"][0]["body"])):
+                    ok = False
+                    why = "no element form is classified dynamic inside the conjunction (spread elements / accessors must be)"
         elif ps == "_":
             ok = bs == "False"
             why = "default is dynamic"
